@@ -1,5 +1,107 @@
-(** C10 -- placeholder while the models are validated; theorems follow. *)
+(** C10 -- The GDSII reader never crashes or hangs on any input bytes.
+    Property theorems only; proofs are in Gds/GdsSafety_proofs.v (reader safety) and
+    Gds/GdsImage_proofs.v (what the reader can return).
+    Model: Gds/GdsRead.v ([read_lib_fuel fixed fuel bs]; [fixed = true] is the code after the repair
+    of read_str, commit a280dfb; [read_lib] / [read_lib_orig] run it with [read_fuel bs] =
+    length bs / 4 + 3 units of fuel). Every slice, index and `unwrap` of the Rust code is an explicit
+    [Panic] in the model, every loop takes fuel and answers [OutOfFuel] when it runs out, so the
+    first two theorems are real statements. They hold for EVERY list of integers, byte-valued or not,
+    of any length. Time and machine stack of the implementation are measured by the harness, not
+    proved (DESIGN.md section 4): the model-level statement is the bound on fuel. *)
 From Coq Require Import ZArith Bool List.
-From L21 Require Import Base.Outcome Base.Hex Gds.GdsData Gds.GdsRecord Gds.GdsWrite Gds.GdsRead Gds.GdsSpec.
+From L21 Require Import Base.Outcome Base.Hex Gds.GdsData Gds.GdsRecord Gds.GdsWrite Gds.GdsRead Gds.GdsSpec
+     Gds.GdsSafety_proofs.
 Import ListNotations.
 Local Open Scope Z_scope.
+
+(** (1) No panic: no out-of-range index, no failed `unwrap`/`try_into`, no arithmetic underflow is
+    reachable, whatever the bytes and whatever the fuel. *)
+Theorem C10_no_panic : forall bs f, read_lib_fuel true f bs <> Panic.
+Proof. exact read_no_panic. Qed.
+
+(** (2) Termination within a bound linear in the input: [read_fuel bs] = length bs / 4 + 3 loop
+    iterations (nesting included) always suffice; more generally any fuel above length bs / 4.
+    Every iteration of every parser loop either returns or reads one record, and a record takes at
+    least its four header bytes. *)
+Theorem C10_terminates_linear : forall bs, read_lib_fuel true (read_fuel bs) bs <> OutOfFuel.
+Proof. exact read_terminates. Qed.
+
+Theorem C10_fuel_bound : forall bs f, (length bs < 4 * f)%nat -> read_lib_fuel true f bs <> OutOfFuel.
+Proof. exact read_enough_fuel. Qed.
+
+(** hence: reading returns a library or an error *)
+Theorem C10_read_total : forall bs, (exists l, read_lib bs = Ok l) \/ (exists e, read_lib bs = Err e).
+Proof. exact read_total. Qed.
+
+(** (3) A stream is accepted only if some prefix of it consists of complete records -- length
+    field even and >= 4, payload present -- none of which is ENDLIB except the last, in the words of
+    the reference splitter of GdsSpec.v (written from the format, not from the code). *)
+Theorem C10_truncation_rejected :
+  forall bs l, read_lib bs = Ok l ->
+    exists n rs, (n <= length bs)%nat /\ split_stream (firstn n bs) = Some (rs, []) /\
+                 rs <> [] /\ fst (fst (last rs (0, 0, []))) = 0x04.
+Proof.
+  intros bs l H. destruct (read_ok_complete_prefix bs l H) as (n & rs & Hn & _ & Hs & Hne & Hl).
+  exists n, rs. auto.
+Qed.
+
+Theorem C10_incomplete_rejected :
+  forall bs, complete_to_endlib bs = false -> forall l, read_lib bs <> Ok l.
+Proof. exact read_incomplete_rejected. Qed.
+
+(** Corollary for prefixes: when the first [n] bytes of [bs] are complete records ending with the
+    first ENDLIB, every shorter prefix of [bs] -- every truncation before the end of the ENDLIB
+    record -- is rejected (with an error, by (1) and (2)). *)
+Theorem C10_proper_prefix_rejected :
+  forall bs n rs k, (n <= length bs)%nat -> split_stream (firstn n bs) = Some (rs, []) -> (k < n)%nat ->
+    forall l, read_lib (firstn k bs) <> Ok l.
+Proof. exact read_proper_prefix_rejected. Qed.
+
+(** The code as found (before commit a280dfb) violated (1): a library whose name is the empty
+    string -- LIBNAME with a zero-length payload -- made `data[len - 1]` underflow in read_str.
+    The repaired reader accepts the same stream. *)
+Definition c10_empty_name_stream : bytes :=
+  [0; 6; 0; 2; 0; 3; 0; 28; 1; 2; 0; 0; 0; 0; 0; 0; 0; 0; 0; 0; 0; 0; 0; 0; 0; 0; 0; 0; 0; 0; 0; 0; 0; 0; 0; 4; 2; 6; 0; 20; 3; 5; 62; 65; 137; 55; 75; 198; 167; 240; 57; 68; 184; 47; 160; 155; 90; 84; 0; 4; 4; 0].
+
+Theorem C10_orig_refuted :
+  exists bs, read_lib_orig bs = Panic /\ exists l, read_lib bs = Ok l /\ l_name l = [].
+Proof. exists c10_empty_name_stream. vm_compute. split; [reflexivity|]. eexists. split; reflexivity. Qed.
+
+(** Non-vacuity: a stream with a structure holding a boundary (with a property) and a text (with
+    STRANS and MAG), followed by three bytes of tape padding, is accepted; its records end at byte
+    214; cut one byte earlier it is rejected. *)
+Definition c10_sample_stream : bytes :=
+  [0; 6; 0; 2; 0; 3; 0; 28; 1; 2; 1; 2; 3; 4; 5; 6; 7; 8; 9; 10; 11; 12; 13; 14; 15; 16; 17; 18; 19; 20; 21; 22; 23; 24; 0; 8; 2; 6; 108; 105; 98; 0; 0; 20; 3; 5; 62; 65; 137; 55; 75; 198; 167; 240; 57; 68; 184; 47; 160; 155; 90; 84; 0; 28; 5; 2; 0; 0; 0; 0; 0; 0; 0; 0; 0; 0; 0; 0; 0; 0; 0; 0; 0; 0; 0; 0; 0; 0; 0; 0; 0; 8; 6; 6; 99; 101; 108; 108; 0; 4; 8; 0; 0; 6; 13; 2; 0; 1; 0; 6; 14; 2; 0; 2; 0; 20; 16; 3; 0; 0; 0; 1; 0; 0; 0; 2; 0; 0; 0; 3; 0; 0; 0; 4; 0; 6; 43; 2; 0; 7; 0; 6; 44; 6; 112; 118; 0; 4; 17; 0; 0; 4; 12; 0; 0; 6; 13; 2; 0; 1; 0; 6; 22; 2; 0; 2; 0; 6; 26; 1; 128; 6; 0; 12; 27; 5; 65; 32; 0; 0; 0; 0; 0; 0; 0; 12; 16; 3; 0; 0; 0; 0; 0; 0; 0; 0; 0; 6; 25; 6; 116; 120; 0; 4; 17; 0; 0; 4; 7; 0; 0; 4; 4; 0; 0; 0; 0].
+
+Example C10_nonvacuous :
+  (exists l, read_lib c10_sample_stream = Ok l /\
+             map (fun s => length (s_elems s)) (l_structs l) = [2%nat]) /\
+  (exists rs, split_stream (firstn 214 c10_sample_stream) = Some (rs, []) /\ length rs = 23%nat) /\
+  length c10_sample_stream = 217%nat /\
+  read_lib (firstn 213 c10_sample_stream) = Err EBoxed.
+Proof.
+  vm_compute. split; [eexists; split; reflexivity|]. split; [eexists; split; reflexivity|]. split; reflexivity.
+Qed.
+
+(** statements pinned: a change of a statement above breaks the build *)
+Check C10_no_panic : forall bs f, read_lib_fuel true f bs <> Panic.
+Check C10_terminates_linear : forall bs, read_lib_fuel true (read_fuel bs) bs <> OutOfFuel.
+Check C10_fuel_bound : forall bs f, (length bs < 4 * f)%nat -> read_lib_fuel true f bs <> OutOfFuel.
+Check C10_truncation_rejected :
+  forall bs l, read_lib bs = Ok l ->
+    exists n rs, (n <= length bs)%nat /\ split_stream (firstn n bs) = Some (rs, []) /\
+                 rs <> [] /\ fst (fst (last rs (0, 0, []))) = 0x04.
+Check C10_incomplete_rejected : forall bs, complete_to_endlib bs = false -> forall l, read_lib bs <> Ok l.
+Check C10_proper_prefix_rejected :
+  forall bs n rs k, (n <= length bs)%nat -> split_stream (firstn n bs) = Some (rs, []) -> (k < n)%nat ->
+    forall l, read_lib (firstn k bs) <> Ok l.
+Check C10_orig_refuted : exists bs, read_lib_orig bs = Panic /\ exists l, read_lib bs = Ok l /\ l_name l = [].
+
+Print Assumptions C10_no_panic.
+Print Assumptions C10_terminates_linear.
+Print Assumptions C10_fuel_bound.
+Print Assumptions C10_read_total.
+Print Assumptions C10_truncation_rejected.
+Print Assumptions C10_incomplete_rejected.
+Print Assumptions C10_proper_prefix_rejected.
+Print Assumptions C10_orig_refuted.
